@@ -723,7 +723,14 @@ func (cfg *PanicCfg) Sites() []PanicSite {
 						add(fn, in, "index", "string byte", false, "", "string indexing")
 					} else if arr, ok := x.X.Type().Underlying().(*types.Array); ok {
 						k, okc := constInt(x.Index)
-						add(fn, in, "index", "array value element", okc && k >= 0 && k < arr.Len(), "ARRAY-CONST-INDEX", "non-constant index into array value")
+						switch {
+						case okc && k >= 0 && k < arr.Len():
+							add(fn, in, "index", "array value element", true, "ARRAY-CONST-INDEX", "")
+						case maskedBelow(x.Index, arr.Len()):
+							add(fn, in, "index", "array value element", true, "MASKED-INDEX: the index is masked (x & k, k < len) below the array length", "")
+						default:
+							add(fn, in, "index", "array value element", false, "", "non-constant index into array value")
+						}
 					}
 				case *ssa.Slice:
 					if pt, ok := x.X.Type().Underlying().(*types.Pointer); ok {
